@@ -14,6 +14,8 @@ open Tdx
 structure Line where
   op : String
   kv : List (String × String)
+  /-- byte strings defined by earlier `DEF id=… b=…` lines, referred to as `@r:<id>[:modifier…]` -/
+  blobs : List (Nat × Bytes) := []
 
 def splitKV (tok : String) : Option (String × String) :=
   match tok.splitOn "=" with
@@ -71,7 +73,40 @@ def parseBytes (v : String) : P Bytes :=
     | some b => .ok b
     | none => .error s!"bad hex {v.take 20}"
 
-def Line.bytes (l : Line) (k : String) : P Bytes := do parseBytes (← l.str k)
+/-- set bytes at offset `off` (Go: `copy(b[off:], patch)`, truncated at the end of `b`) -/
+def patch (b : Bytes) (off : Nat) (pt : Bytes) : Bytes :=
+  b.take off ++ (pt.take (b.length - off)) ++ b.drop (off + pt.length)
+
+def applyMod (b : Bytes) (m : String) : P Bytes :=
+  if m.startsWith "t" then match (m.drop 1).toString.toNat? with
+    | some n => .ok (b.take n)
+    | none => .error "bad take"
+  else if m.startsWith "d" then match (m.drop 1).toString.toNat? with
+    | some n => .ok (b.drop n)
+    | none => .error "bad drop"
+  else if m.startsWith "a" then match unhex (m.drop 1).toString with
+    | some x => .ok (b ++ x)
+    | none => .error "bad append"
+  else if m.startsWith "p" then match (m.drop 1).toString.splitOn "." with
+    | [o, h] => match o.toNat?, unhex h with
+      | some off, some x => .ok (patch b off x)
+      | _, _ => .error "bad patch"
+    | _ => .error "bad patch"
+  else .error s!"bad modifier {m}"
+
+/-- value syntax incl. references to defined blobs: `@r:<id>:t<n>:p<off>.<hex>:a<hex>:d<n>` -/
+def Line.bytesOf (l : Line) (v : String) : P Bytes :=
+  if v.startsWith "@r:" then
+    match (v.drop 3).toString.splitOn ":" with
+    | id :: mods => match id.toNat? with
+      | some i => match l.blobs.find? (·.1 == i) with
+        | some (_, b) => mods.foldlM applyMod b
+        | none => .error s!"undefined blob {i}"
+      | none => .error "bad blob id"
+    | [] => .error "bad ref"
+  else parseBytes v
+
+def Line.bytes (l : Line) (k : String) : P Bytes := do l.bytesOf (← l.str k)
 
 /-- `-` = absent (nil), otherwise bytes (possibly empty via `e`) -/
 def Line.optBytes (l : Line) (k : String) : P (Option Bytes) := do
